@@ -1,3 +1,93 @@
+(* C14P.v — proofs for C14 (model: model/Inputs.v, entry points: run/Run_C14.v) *)
 From DV Require Import Run_C14.
-Lemma placeholder_c14 : run_C14 (CObs 0%N) = [0; 1].
-Proof. reflexivity. Qed.
+From Coq Require Import Lia.
+
+Local Open Scope bool_scope.
+
+(* ------------------------------------------------------------------------------------------ *)
+(** * association lists *)
+
+Lemma lookup_remove_neq : forall A (x y : N) (l : list (N * A)),
+  x <> y -> lookup x (remove y l) = lookup x l.
+Proof.
+  intros A x y l Hxy. unfold remove. induction l as [|[z a] l IH]; cbn [filter lookup fst]; [reflexivity|].
+  destruct (N.eqb y z) eqn:Eyz; cbn [negb].
+  - apply N.eqb_eq in Eyz. subst z. rewrite IH.
+    destruct (N.eqb x y) eqn:Exy; [apply N.eqb_eq in Exy; contradiction|reflexivity].
+  - cbn [lookup]. destruct (N.eqb x z); [reflexivity|exact IH].
+Qed.
+
+Lemma lookup_cons_eq : forall A (x : N) (a : A) l, lookup x ((x, a) :: l) = Some a.
+Proof. intros. cbn [lookup]. rewrite N.eqb_refl. reflexivity. Qed.
+
+Lemma lookup_cons_neq : forall A (x y : N) (a : A) l, x <> y -> lookup x ((y, a) :: l) = lookup x l.
+Proof.
+  intros A x y a l H. cbn [lookup]. destruct (N.eqb x y) eqn:E; [apply N.eqb_eq in E; contradiction|reflexivity].
+Qed.
+
+Lemma lookup_in : forall A (x : N) (a : A) l, lookup x l = Some a -> In x (map fst l).
+Proof.
+  intros A x a l. induction l as [|[y b] l IH]; cbn [lookup map fst]; [discriminate|].
+  destruct (N.eqb x y) eqn:E; intro H.
+  - left. apply N.eqb_eq in E. auto.
+  - right. auto.
+Qed.
+
+Lemma lookup_none_notin : forall A (x : N) (l : list (N * A)), lookup x l = None -> ~ In x (map fst l).
+Proof.
+  intros A x l. induction l as [|[y b] l IH]; cbn [lookup map fst]; [intros _ []|].
+  destruct (N.eqb x y) eqn:E; [discriminate|]. intros H [H1|H1].
+  - subst y. rewrite N.eqb_refl in E. discriminate.
+  - exact (IH H H1).
+Qed.
+
+Lemma lookup_app_left : forall A (x : N) (l1 l2 : list (N * A)) a,
+  lookup x l1 = Some a -> lookup x (l1 ++ l2) = Some a.
+Proof.
+  intros A x l1 l2 a. induction l1 as [|[y b] l1 IH]; cbn [lookup app]; [discriminate|].
+  destruct (N.eqb x y); auto.
+Qed.
+
+Lemma lookup_app_none : forall A (x : N) (l1 l2 : list (N * A)),
+  lookup x l1 = None -> lookup x (l1 ++ l2) = lookup x l2.
+Proof.
+  intros A x l1 l2. induction l1 as [|[y b] l1 IH]; cbn [lookup app]; [reflexivity|].
+  destruct (N.eqb x y); [discriminate|auto].
+Qed.
+
+(* ------------------------------------------------------------------------------------------ *)
+(** * Variables::validate_params: after an accepted validation every declared variable is
+      bound, to the value validate_one made of the value the caller supplied *)
+
+Lemma validate_params_frame : forall vs ps ps' x,
+  validate_params vs ps = Some ps' -> ~ In x (map fst vs) -> lookup x ps' = lookup x ps.
+Proof.
+  induction vs as [|[y vt] vs IH]; intros ps ps' x H Hn; cbn [validate_params] in H.
+  - inversion H. reflexivity.
+  - destruct (lookup y ps) as [p|] eqn:Ely; [|discriminate].
+    destruct (validate_one vt p) as [p'|] eqn:Ev; [|discriminate].
+    cbn [map fst] in Hn.
+    assert (Hxy : x <> y) by (intro; subst; apply Hn; left; reflexivity).
+    rewrite (IH _ _ x H) by (intro; apply Hn; right; assumption).
+    rewrite lookup_cons_neq by exact Hxy. apply lookup_remove_neq. exact Hxy.
+Qed.
+
+Theorem validate_params_binds : forall vs ps ps',
+  NoDup (map fst vs) ->
+  validate_params vs ps = Some ps' ->
+  forall x vt, In (x, vt) vs ->
+    exists p0 p', lookup x ps = Some p0 /\ validate_one vt p0 = Some p' /\ lookup x ps' = Some p'.
+Proof.
+  induction vs as [|[y vt0] vs IH]; intros ps ps' Hnd H x vt Hin; [destruct Hin|].
+  cbn [validate_params] in H. cbn [map fst] in Hnd. inversion Hnd as [|? ? Hny Hnd']; subst.
+  destruct (lookup y ps) as [p|] eqn:Ely; [|discriminate].
+  destruct (validate_one vt0 p) as [p'|] eqn:Ev; [|discriminate].
+  destruct Hin as [Heq|Hin].
+  - inversion Heq; subst. exists p, p'. repeat split; auto.
+    rewrite (validate_params_frame _ _ _ x H Hny). apply lookup_cons_eq.
+  - assert (Hxy : x <> y).
+    { intro; subst. apply Hny. change y with (fst (y, vt)). apply in_map. exact Hin. }
+    destruct (IH _ _ Hnd' H x vt Hin) as (p0 & p1 & H0 & H1 & H2).
+    exists p0, p1. repeat split; auto.
+    rewrite lookup_cons_neq in H0 by exact Hxy. rewrite lookup_remove_neq in H0 by exact Hxy. exact H0.
+Qed.
